@@ -226,7 +226,7 @@ func (i *inst) close() {
 
 var pool []*inst // most recently used last
 
-const poolMax = 8
+const poolMax = 12
 
 func sweepStale() {
 	ents, _ := os.ReadDir(tmpRoot())
@@ -242,7 +242,13 @@ func sweepStale() {
 
 var swept bool
 
+var nInst int
+
 func newInst(sc *scenario, key string) (*inst, string) {
+	nInst++
+	if os.Getenv("VERIF_DEBUG") != "" && nInst%50 == 0 {
+		fmt.Fprintf(os.Stderr, "c01: %d chain instances so far\n", nInst)
+	}
 	if !swept {
 		swept = true
 		sweepStale()
@@ -428,7 +434,7 @@ func generate(R *core.Rand, thorough bool, emit func(class string, nontrivial bo
 				continue
 			}
 			for _, a := range m.args {
-				// quick: every (variant, mutator, arg) in two different contexts and cache modes chosen by the seed; thorough: all contexts x both cache modes
+				// quick: every (variant, mutator, arg) in one or two different contexts, cache mode by the seed chosen by the seed; thorough: all contexts x both cache modes
 				var picks []recipe
 				if thorough {
 					for _, c := range ctxs {
@@ -439,7 +445,7 @@ func generate(R *core.Rand, thorough bool, emit func(class string, nontrivial bo
 				} else {
 					k := R.Intn(len(ctxs))
 					picks = append(picks, recipe{vi, ctxs[k], R.Intn(2), m.name, a})
-					{
+					if R.Chance(2, 3) {
 						k2 := (k + 1 + R.Intn(len(ctxs)-1)) % len(ctxs)
 						picks = append(picks, recipe{vi, ctxs[k2], R.Intn(2), m.name, a})
 					}
